@@ -24,17 +24,17 @@ Definition printable_nics (l : list knic) : bool :=
                     && forallb is_dec (nic_counters i)) l
   && nodupb (map n_name l).
 (* kernel-shaped /proc/net/dev *)
-Definition run_net (sp : bool) (l : list knic) : jv :=
+Definition run_net (legacy sp : bool) (l : list knic) : jv :=
   let c := k_netdev sp l in
   JL [ JB c;
-       jv_xout jv_front (net_io_counters true c);
-       jv_xout jv_front (net_io_counters false c);
+       jv_xout jv_front (net_io_counters legacy true c);
+       jv_xout jv_front (net_io_counters legacy false c);
        jv_spec (printable_nics l) (spec_net true l);
        jv_spec (printable_nics l) (spec_net false l);
        jbool (wf_nics l);
        jbool (forallb (fun i => dev_valid_name (n_name i)) l) ].
-Definition run_net_raw (c : bytes) : jv :=
-  JL [ jv_xout jv_front (net_io_counters true c); jv_xout jv_front (net_io_counters false c) ].
+Definition run_net_raw (legacy : bool) (c : bytes) : jv :=
+  JL [ jv_xout jv_front (net_io_counters legacy true c); jv_xout jv_front (net_io_counters legacy false c) ].
 
 (* /sys/block as a list of directory entry names (bytes); the oracle answers for a str *)
 Definition in_listing (names : list bytes) (n : text) : bool := existsb (beqb n) (map dec names).
